@@ -51,7 +51,7 @@ func (s *Scanner) File() *fs.File {
 // Next reads japi file by bytes, detects lexemes beginnings and ends and returns them as soon as they found
 // returns false for the end of file
 func (s *Scanner) Next() (*Lexeme, *jerr.JApiError) {
-	if len(s.finds) != 0 { // found beginning or end of lexeme
+	for len(s.finds) != 0 { // found beginning or end of lexeme
 		lex, je := s.processLexemeEvent(s.shiftFound())
 		if je != nil {
 			return nil, je
